@@ -34,6 +34,9 @@ type job struct {
 }
 
 func childMain() {
+	if ms := envInt("VERIF_WAIT_MS", 0); ms > 0 { // test hook: shorten the Wait deadline
+		engine.WaitDeadline = time.Duration(ms) * time.Millisecond
+	}
 	runtime.GOMAXPROCS(max(2, envInt("VERIF_CHILD_PROCS", 4)))
 	in := bufio.NewScanner(os.Stdin)
 	in.Buffer(make([]byte, 1<<20), 1<<20)
@@ -43,6 +46,13 @@ func childMain() {
 		var j job
 		if err := json.Unmarshal(in.Bytes(), &j); err != nil {
 			continue
+		}
+		if f := os.Getenv("VERIF_TEST_DIE_FILE"); f != "" { // test hook for the death re-run policy: die once
+			if _, err := os.Stat(f); err != nil {
+				os.WriteFile(f, []byte("x"), 0o644)
+				fmt.Fprintln(os.Stderr, "test hook: simulated fatal error, dying once")
+				os.Exit(3)
+			}
 		}
 		specs := make([]*engine.Spec, len(j.Idx))
 		for k, i := range j.Idx {
@@ -251,6 +261,7 @@ func main() {
 			for pos := range next {
 				var final []engine.Result
 				hangs, lates := 0, 0
+				diedOnce, deathStderr := false, ""
 				for try := 0; try < 4; try++ {
 					if c == nil {
 						if c, err = startChild(); err != nil {
@@ -293,11 +304,9 @@ func main() {
 							}
 							res[q] = engine.Result{Hang: !died, Taint: true, Case: cs}
 						}
-						statMu.Lock()
 						if died {
-							stats["panics"]++
+							diedOnce, deathStderr = true, stderr
 						}
-						statMu.Unlock()
 					}
 					final = res
 					if hang && hangs < 2 { // re-run a hang up to 3x in fresh children before it is reported
@@ -309,6 +318,68 @@ func main() {
 						continue
 					}
 					break
+				}
+				if diedOnce {
+					// The child died while running this job. Re-run its cases in fresh children, 3 rounds. If a round
+					// dies again the death is reported (kind "panic"); otherwise a marker case (kind
+					// "child-death-unreproduced") is emitted together with the traces of ALL re-run rounds, which are
+					// checked like any other trace.
+					var extra []engine.Result
+					again := ""
+					for round := 1; round <= 3 && again == ""; round++ {
+						if c == nil {
+							if c, err = startChild(); err != nil {
+								fmt.Fprintln(os.Stderr, "cannot start child:", err)
+								os.Exit(2)
+							}
+						}
+						res, died := c.run(jobs[pos], engine.WaitDeadline+20*time.Second)
+						if res == nil {
+							if died {
+								c.cmd.Wait()
+								again = fmt.Sprintf("died again in re-run round %d: %s", round, tail(c.errb.String(), 3000))
+							} else {
+								again = fmt.Sprintf("froze in re-run round %d", round)
+							}
+							c.kill()
+							c = nil
+							break
+						}
+						taint := false
+						for q := range res {
+							taint = taint || res[q].Taint
+							res[q].Case.ID += fmt.Sprintf("-deathrerun%d", round)
+							if res[q].Case.Dist == nil {
+								res[q].Case.Dist = map[string]any{}
+							}
+							res[q].Case.Dist["death_rerun"] = round
+						}
+						if taint {
+							c.kill()
+							c = nil
+						}
+						extra = append(extra, res...)
+					}
+					statMu.Lock()
+					if again != "" {
+						stats["panics"]++
+						for q := range final {
+							final[q].Case.Note += "\n" + again
+						}
+					} else {
+						stats["child_deaths_unreproduced"]++
+						ids := make([]string, len(final))
+						for q := range final {
+							ids[q] = final[q].Case.ID
+						}
+						marker := engine.Result{Case: core.Case{ID: final[0].Case.ID + "-death", Kind: "child-death-unreproduced", Coq: "",
+							Note:     "child-died-once: " + tail(deathStderr, 3000),
+							Dist:     map[string]any{"profile": jobs[pos].Profile, "child_death_unreproduced": true},
+							Input:    map[string]any{"seed": core.Seed(), "profile": jobs[pos].Profile, "indices": jobs[pos].Idx, "opts": jobs[pos].Opts, "cases": ids},
+							Observed: map[string]any{"stderr": tail(deathStderr, 6000), "rerun_rounds": 3, "rerun_cases": len(extra)}}}
+						final = append([]engine.Result{marker}, extra...)
+					}
+					statMu.Unlock()
 				}
 				for q := range final {
 					if final[q].Case.Dist == nil {
